@@ -128,7 +128,7 @@ fn c16_3c_delay_feedback_effects_follow_the_rate() {
     core::mem::forget(d);
 }
 
-// @ob id=C14.6c strength=bounded tier=thorough timeout=3600 bound="as C16.3c; one 3-frame call (two sub-chunks of the 2-frame line)" axioms=EXP10 fn=effect/delay.rs::<Delay as Effect>::process
+// @ob id=C14.6c strength=bounded tier=quick bound="as C16.3c; one 3-frame call (two sub-chunks of the 2-frame line)" axioms=EXP10 fn=effect/delay.rs::<Delay as Effect>::process
 // @req a delay whose feedback loop holds an effect; one call longer than the delay line
 // @ens the feedback effects see every delayed frame exactly once (one call per sub-chunk, lengths summing to the input length)
 #[kani::proof]
